@@ -278,6 +278,13 @@ func (vr *variableResolver) resolve(ctx *ExecutionContext) (*Value, error) {
 			if part.typ == varTypeIdent {
 				funcValue := current.MethodByName(part.s)
 				if funcValue.IsValid() {
+					if current.Kind() == reflect.Ptr && current.IsNil() {
+						if _, onValue := current.Type().Elem().MethodByName(part.s); onValue {
+							// A method with a value receiver cannot be called
+							// through a nil pointer (Go would panic): nil along the way
+							return AsValue(nil), nil
+						}
+					}
 					current = funcValue
 					isFunc = true
 				}
